@@ -236,7 +236,15 @@ fn forged_kbs(a: &Session, hk: Hk) -> Vec<KbItem> {
     }
     // HMAC keyed with the holder's public key material
     let jwk = hk.jwk_value(0).unwrap();
-    for (kn, kb) in [("jwk_text", hk.jwk_str(0).unwrap().as_bytes().to_vec()), ("x_bytes", b64d(jwk["x"].as_str().unwrap()).unwrap())] {
+    let xb = b64d(jwk["x"].as_str().unwrap()).unwrap();
+    let yb = jwk["y"].as_str().and_then(b64d).unwrap_or_default();
+    let mut point = vec![4u8];
+    point.extend(&xb);
+    point.extend(&yb);
+    let mut xy = xb.clone();
+    xy.extend(&yb);
+    // every byte string an implementation might take for "the key" when it forgets which family it is in
+    for (kn, kb) in [("jwk_text", hk.jwk_str(0).unwrap().as_bytes().to_vec()), ("x_bytes", xb.clone()), ("uncompressed_point", point), ("x_then_y", xy), ("x_base64url_text", jwk["x"].as_str().unwrap().as_bytes().to_vec()), ("jwk_value_text", serde_json::to_string(&jwk).unwrap().into_bytes()), ("empty", vec![])] {
         let hdr = with(&base_hdr, "alg", json!("HS256"));
         let tok = tokens::hmac_sign(&b64_json(&hdr), &b64_json(&base_pl), &kb);
         out.push(KbItem { label: format!("forged:hs256_keyed_with_public_{kn}"), token: Some(tok), signer: "hmac_pub".into(), alg_family_ok: false, typ: hdr.get("typ").cloned(), nonce: base_pl.get("nonce").cloned(), aud: base_pl.get("aud").cloned(), sd_hash: base_pl.get("sd_hash").cloned(), holder_made_for: None });
